@@ -237,9 +237,9 @@ func c12Unblock(r *verdict.Run, race bool) {
 	}
 	var all []scn
 	for _, f := range blkForms {
-		for _, where := range []string{"not-blocked", "before-begin", "before-register", "after-register", "before-capture", "waiting", "with-push", "unknown-id", "stale-then-block", "in-empty-wakeup-transaction", "kill-in-empty-wakeup-transaction", "in-serving-transaction"} {
+		for _, where := range []string{"not-blocked", "before-begin", "before-register", "after-register", "before-capture", "waiting", "with-push", "unknown-id", "stale-then-block", "in-empty-wakeup-transaction", "kill-in-empty-wakeup-transaction", "in-serving-transaction", "ended-then-pushed-in-one-transaction", "killed-then-pushed-in-one-transaction"} {
 			for _, mode := range []string{"", "TIMEOUT", "ERROR"} {
-				if where == "kill-in-empty-wakeup-transaction" && mode != "" {
+				if (where == "kill-in-empty-wakeup-transaction" || where == "killed-then-pushed-in-one-transaction") && mode != "" {
 					continue
 				}
 				all = append(all, scn{f, where, mode})
@@ -316,6 +316,56 @@ func c12Unblock(r *verdict.Run, race bool) {
 		}
 		r.Eval(1)
 		switch sc.where {
+		case "ended-then-pushed-in-one-transaction", "killed-then-pushed-in-one-transaction":
+			// the target's block is ended (CLIENT UNBLOCK / CLIENT KILL) by a transaction that pushes afterwards: while EXEC
+			// owns the database the target cannot leave the wait queue, so the push still finds it at the head and hands it
+			// the wake-up. The target leaves unserved - the element belongs to the second waiter behind it.
+			second, err := newWaiter(e)
+			if err != nil {
+				return
+			}
+			defer second.cn.Close()
+			for _, ww := range []*waiter{w, second} {
+				from := c.EventCount()
+				c.Ctl("watch blk:before-wait")
+				ww.issue(cmd, 15*time.Second)
+				if _, _, f := c.WaitEvent(from, func(ev host.Event) bool { return ev.Kind == "hit" && ev.Point == "blk:before-wait" && ev.ID == ww.id }, 5*time.Second); !f {
+					r.Inconclusive("waiter did not reach blk:before-wait")
+					return
+				}
+				time.Sleep(5 * time.Millisecond)
+			}
+			req := []string{"CLIENT", "UNBLOCK", strconv.FormatInt(w.id, 10)}
+			if sc.mode != "" {
+				req = append(req, sc.mode)
+			}
+			if sc.where == "killed-then-pushed-in-one-transaction" {
+				req = []string{"CLIENT", "KILL", "ID", strconv.FormatInt(w.id, 10)}
+			}
+			s.do("MULTI")
+			s.do(req...)
+			for f := 0; f < 300; f++ {
+				s.aux.SendCmd("SET", "filler", strconv.Itoa(f))
+			}
+			for f := 0; f < 300; f++ {
+				s.aux.ReadValue(5 * time.Second)
+			}
+			s.do("RPUSH", "q", "el-1")
+			ex := s.do("EXEC")
+			if ex.Kind != '*' || len(ex.Elems) != 302 {
+				r.Report("unblock/in-transaction/unexpected-exec-reply", fmt.Sprintf("%s: EXEC replied %s", s.name, ex), s.rep())
+				return
+			}
+			w.finished(3 * time.Second)
+			got := elements(w.reply)
+			if len(got) == 1 && w.err == nil {
+				// the target took the element after all (the request lost): the second waiter is served by the next push
+				s.do("RPUSH", "q", "el-2")
+				s.expectServed(second, "el-2", "unblock/second-waiter-not-served")
+			} else {
+				s.expectServed(second, "el-1", "unblock/element-stays-while-the-next-waiter-is-blocked")
+			}
+			r.Distinct(fmt.Sprintf("%s/target-took-the-element=%v", s.name, len(got) == 1))
 		case "in-serving-transaction":
 			// the request is accepted while the push that serves the target is already under way: one transaction pushes
 			// (the target is woken but cannot pop before EXEC is over) and then unblocks the target. The target ends once
